@@ -54,3 +54,4 @@ CHECK["assumptions"] = ENUMX_ASSUME + [
     "one generated instance per type and version, single-validator sets; fixed order waiting reader -> store -> overwrite -> read -> overwrite -> read",
     "concurrent readers (data races on shared memory) are the subject of the free-running -race pass, not of this check",
 ]
+CHECK["claim"] += ' Fifth session: every unit of the value catalogue that has OPTIONAL scalar pointer fields which its generator leaves nil (e.g. the validator index of versioned attestations) also occurs with those fields set, on every path.'
